@@ -263,9 +263,11 @@ def judge_entity_resolver(ctx, R, S, f, rule):
                 ok = any(a[0] == "cmp" and a[1] == "Lt" and t and same_index(a[2], i) and a[3] == sf("capacity") for (a, t) in pre)
                 R.check(ok, "C03-R1", key + "|bounds-before-read", "unchecked slot read dominated by Lt(idx, capacity)",
                         "unchecked read of slots[%s] is not dominated by the bounds guard Lt(idx, self.capacity)" % show(i), where_of(f, e[5]), fn=f.key)
-            if e[0] == "call" and e[6] == f.key and is_call(("call", e[2], ()), "Option::unwrap_unchecked"):
-                a = N(e[3][0])
-                if is_call(a, "SlotIndex::index_data"):
+            if e[0] == "call" and e[6] == f.key and cname(e[2]).endswith("SlotIndex::index_data"):
+                # whatever is done with the result (unwrap_unchecked, `?`, match): for a free slot index_data() yields
+                # a link with the free bit set, not a dense index, so the call itself must be behind !is_free(slot)
+                a = ("call", e[2], tuple(N(x) for x in e[3]))
+                if True:
                     pre = [atom(c) for c in q.conds if c[2] == "branch" and cond_before(q, c, e)]
                     ok = free_ref is not None and any(a2 == free_ref and t is (not free_pol) for (a2, t) in pre)
                     R.check(ok, "C03-R1", key + "|free-before-dense", "dense index read dominated by !is_free(slot)",
